@@ -92,6 +92,9 @@ func (e *esdtNFTBurn) ProcessBuiltinFunction(
 	if err != nil {
 		return nil, err
 	}
+	if esdtData.TokenMetaData == nil {
+		return nil, ErrNFTDoesNotHaveMetadata
+	}
 
 	quantityToBurn := big.NewInt(0).SetBytes(vmInput.Arguments[2])
 	if esdtData.Value.Cmp(quantityToBurn) < 0 {
